@@ -232,3 +232,18 @@ pub fn sqrt_ok(a: u64, r: u64, n: u32, es: u32) -> bool {
         }
     }
 }
+
+/// power-of-two bracket of q = floor(n/d) for n >= 0, d > 0 (a consequence of the divider's contract,
+/// proved from `/` in a_leaves.rs, assumed by the ghost stubs of the modular div proofs)
+pub fn div_bracket(n: i64, d: i64, q: i64) -> bool {
+    if n <= 0 || d <= 0 {
+        return true;
+    }
+    let a = 63 - n.leading_zeros() as i64;
+    let b = 63 - d.leading_zeros() as i64;
+    if a < b {
+        return q == 0;
+    }
+    let lo = 1i128 << (a - b);
+    (q as i128) >= (lo >> 1) && (q as i128) < (lo << 1)
+}
